@@ -496,6 +496,23 @@ def rule_s9(ctx, F):
     ctx.floor("calls of ts_language_alias_at", n, 6)
 
 
+def rule_s10(ctx, F):
+    """S10: only a hidden node's children count as children of its parent.  The child/sibling walks skip a child that is
+    not relevant in the current mode and then look at *its* relevant children (ts_node__relevant_child_count).  In the
+    named-only mode an irrelevant child may be a visible anonymous node (e.g. a rule aliased to a string); its named
+    children are its own — the cached named_child_count of the parent does not include them.  So the helper answers
+    non-zero only for a node that is not visible at all."""
+    fn = ctx.need_fn(F, "ts_node__relevant_child_count", "S10")
+    if not fn:
+        return
+    nz = [pt for pt, e in fn.points() if e.get("k") == "ret" and not (strip(e["e"]).get("k") == "int" and not strip(e["e"]).get("v"))]
+    ctx.floor("non-zero answers of ts_node__relevant_child_count", len(nz), 2)
+    ctx.gate("S10", fn, nz, [("children are attributed to the parent only for a node that is hidden (not relevant even with anonymous nodes included)",
+                             [("ts_node__is_relevant(self, 1)", False), ("ts_subtree_visible(tree)", False)])], accept_desc="counting a node's children as its parent's")
+    users = sorted({g.name for g in F.fn_list for pt, c in g.calls() if callee_name(c) == "ts_node__relevant_child_count"})
+    ctx.analysed["users_of_relevant_child_count"] = users
+
+
 def rule_s8(ctx, F):
     """S8: a field lookup answers only from map entries of the requested field.  The entries of a production are
     sorted by field id; ts_node_child_by_field_id narrows [field_map, field_map_end) from both sides and then
@@ -573,6 +590,7 @@ def run(ctx):
         rule_s7(ctx, F)
         rule_s8(ctx, F)
         rule_s9(ctx, F)
+        rule_s10(ctx, F)
         rule_v1(ctx, F)
     return ctx.finish(
         "Sibling-agreement (CFG isomorphism under substitution), field-coverage and index-width rules over node.c / tree_cursor.c: byte- and point-range "
